@@ -388,6 +388,8 @@ FUNCS = [
     fn("global_und_ref", [("r", TL(TZ), True)], TZ, [setv(idx_lv(lvid("glob_l"), zl(1)), zl(55)), RET(bin_("idx", ident("r"), zl(1)))]),
     fn("wert_und_ref", [("w", TL(TZ), False), ("r", TL(TZ), True)], TZ, [setv(idx_lv(lvid("r"), zl(1)), zl(42)), RET(bin_("idx", ident("w"), zl(1)))]),
     fn("zwei_refs", [("a", TT, True), ("b", TT, True)], TT, [setv(lvid("a"), bin_("cat", ident("a"), lit(T("!")))), RET(ident("b"))]),
+    fn("setze_stelle", [("l", TL(TZ), True), ("i", TZ, False), ("v", TZ, False)], TNONE, [setv(idx_lv(lvid("l"), ident("i")), ident("v"))]),
+    fn("setze_global_stelle", [("i", TZ, False), ("v", TZ, False)], TNONE, [setv(idx_lv(lvid("glob_l"), ident("i")), ident("v"))]),
     fn("text_zurueck", [("t", TT, False)], TT, [RET(bin_("cat", ident("t"), lit(T("+"))))]),
     fn("liste_zurueck", [("n", TZ, False)], TL(TT), [var("r", TL(TT), lit(L(TT, [])), False),
         {"k": "for", "v": "i", "t": TZ, "from": zl(1), "to": ident("n"), "step": NONE, "body": [setv(lvid("r"), bin_("cat", ident("r"), as_text(ident("i"))))]}, RET(ident("r"))]),
@@ -523,6 +525,16 @@ def stmt_cases(tier, rng):
         acc_add(as_text(ident("c"))), setv(idx_lv(lvid("src"), zl(4)), lit(C("x")))]}], ident("acc"), TT)
     add("each:mutate-source:ref-callee", acc_init() + [var("src", TL(TZ), lit(L(TZ, [Z(1), Z(2), Z(3)])), False), {"k": "foreach", "v": "z", "t": TZ, "idx": "", "in": ident("src"), "body": [
         acc_add(as_text(ident("z"))), {"k": "expr", "e": call("setze_erstes", [("l", lvid("src")), ("v", zl(9))])}, setv(idx_lv(lvid("src"), zl(3)), zl(0))]}, acc_add(as_text(bin_("idx", ident("src"), zl(1))))], ident("acc"), TT)
+    # the iterated value is changed ONLY indirectly (no assignment to it is written in the loop body): through a Referenz callee, through a callee that writes the global
+    add("each:mutate-source:only-ref-callee:list", acc_init() + [var("src", TL(TZ), lit(L(TZ, [Z(1), Z(2), Z(3), Z(4)])), False), {"k": "foreach", "v": "z", "t": TZ, "idx": "", "in": ident("src"), "body": [
+        acc_add(as_text(ident("z"))), {"k": "expr", "e": call("setze_stelle", [("l", lvid("src")), ("i", zl(4)), ("v", zl(0))])}]}, acc_add(as_text(bin_("idx", ident("src"), zl(4))))], ident("acc"), TT)
+    add("each:mutate-source:only-ref-callee:text", acc_init() + [var("src", TT, lit(T("abcd")), False), {"k": "foreach", "v": "c", "t": TC, "idx": "", "in": ident("src"), "body": [
+        acc_add(as_text(ident("c"))), {"k": "expr", "e": call("ersetze_zeichen", [("t", lvid("src")), ("c", lit(C("X"))), ("i", zl(4))])}]}, acc_add(ident("src"))], ident("acc"), TT)
+    add("each:mutate-source:only-ref-callee:append", acc_init() + [var("src", TT, lit(T("ab")), False), {"k": "foreach", "v": "c", "t": TC, "idx": "", "in": ident("src"), "body": [
+        acc_add(as_text(ident("c"))), {"k": "expr", "e": call("haenge_an", [("t", lvid("src")), ("s", lit(T("-angehaengt-und-damit-neu-alloziert")))])}]}, acc_add(ident("src"))], ident("acc"), TT)
+    add("each:mutate-source:global-written-by-callee", acc_init() + [{"k": "foreach", "v": "z", "t": TZ, "idx": "", "in": ident("glob_l"), "body": [
+        acc_add(as_text(ident("z"))), {"k": "expr", "e": call("setze_global_stelle", [("i", zl(3)), ("v", zl(0))])}]}, acc_add(as_text(bin_("idx", ident("glob_l"), zl(3)))),
+        {"k": "expr", "e": call("setze_global_stelle", [("i", zl(3)), ("v", zl(3))])}], ident("acc"), TT)
     add("each:element-is-copy", acc_init() + [var("src", TL(TT), lit(L(TT, [T("ab"), T("cd")])), False), {"k": "foreach", "v": "e", "t": TT, "idx": "", "in": ident("src"), "body": [
         setv(idx_lv(lvid("e"), zl(1)), lit(C("X"))), acc_add(ident("e"))]}, acc_add(bin_("idx", ident("src"), zl(1)))], ident("acc"), TT)
     # compound assignments (defined by their expansion): every operator on Zahl / Kommazahl / Byte variables, list elements and fields
